@@ -66,7 +66,7 @@ class UA:
 
     def _vf_eq(self, other):
         """UpgradedAnnotation.__eq__: source_value() == source_value() (the empty annotation's is ``empty``)"""
-        if self.interp is not None and sym._Flags.nonreflexive:
+        if self.interp is not None:
             return self._real_eq(other)
         c = sym.CTX()
         if isinstance(other, UA):
@@ -112,17 +112,31 @@ def classes(interp):
 
 
 def mk_param(interp, name, kind, default_mv, ann_mv, ua, function, sources, depths):
+    """an input parameter, built by the REAL UpgradedParameter.__init__ (so that whatever the constructor establishes -
+    including attributes a change adds - holds for the inputs); falls back to direct construction if the constructor
+    cannot be interpreted on symbolic data"""
     UP, _, _ = classes(interp)
-    p = Inst(UP)
+    p = None
+    try:
+        p = interp.instantiate(UP, [name, kind], [('default', default_mv), ('annotation', ann_mv), ('function', function), ('sources', sources),
+                                                  ('source_depths', depths), ('upgraded_annotation', ua)])
+        d = p._d
+        if not (d.get('_name') is name and d.get('_kind') == kind and d.get('sources') is sources and d.get('upgraded_annotation') is ua):
+            p = None
+    except (PyExc, EngineLimit):
+        p = None
+    if p is None:
+        p = Inst(UP)
+        d = p._d
+        d['_name'] = name
+        d['_kind'] = kind
+        d['_default'] = default_mv
+        d['_annotation'] = ann_mv
+        d['upgraded_annotation'] = ua
+        d['_function'] = function
+        d['sources'] = sources
+        d['source_depths'] = depths
     d = p._d
-    d['_name'] = name
-    d['_kind'] = kind
-    d['_default'] = default_mv
-    d['_annotation'] = ann_mv
-    d['upgraded_annotation'] = ua
-    d['_function'] = function
-    d['sources'] = sources
-    d['source_depths'] = depths
     d['_vf_stands'] = [p]
     d['_vf_origin'] = p
     return p
@@ -202,11 +216,22 @@ def mk_sig(interp, ctx, side, shape, nfuncs=1, annotations=True, tracked=True):
     depths = SymDict()
     depths.items_ = [(f, SymInt(dt)) for f, dt in zip(funcs, depth_terms)]
     src.items_.append(('+depths', depths))
-    s = Inst(US)
     from .models import ParamsView
-    s._d['_parameters'] = ParamsView(plist)
     rah = z3.Bool('rah_%s' % side) if annotations else z3.BoolVal(False)
-    s._d['_return_annotation'] = MV(rah, z3.Const('ra_%s' % side, ValS))
+    ret_mv = MV(rah, z3.Const('ra_%s' % side, ValS))
+    s = None
+    try:
+        # the REAL UpgradedSignature.__init__ (see mk_param)
+        s = interp.instantiate(US, [list(plist)], [('return_annotation', ret_mv), ('sources', src)])
+        pv = s._d.get('_parameters')
+        if not (isinstance(pv, ParamsView) and len(pv.plist) == len(plist) and all(a is b for a, b in zip(pv.plist, plist)) and s._d.get('sources') is src):
+            s = None
+    except (PyExc, EngineLimit):
+        s = None
+    if s is None:
+        s = Inst(US)
+        s._d['_parameters'] = ParamsView(plist)
+    s._d['_return_annotation'] = ret_mv
     s._d['sources'] = src
     s._d['upgraded_return_annotation'] = UA('%s.return' % side, rah, den(z3.Const('ra_%s' % side, ValS)), raw=z3.Const('ra_%s' % side, ValS), function=funcs[0]) if annotations else EmptyAnn
     if annotations:
